@@ -76,8 +76,7 @@ fn main() {
         std::process::exit(0);
     }
     let code = if args[1] == "replay" {
-        eprintln!("replay not wired for this file yet");
-        2
+        props::replay(&args[2])
     } else {
         let tier = args[2].as_str();
         if tier != "quick" && tier != "thorough" {
